@@ -63,6 +63,9 @@ def main(argv):
             return 1
         return 0
 
+    # replay files of earlier runs of this check are stale once it runs again
+    import shutil
+    shutil.rmtree(os.path.join(core.VERIF, 'replays', prop), ignore_errors=True)
     ctx = {'tier': tier, 'seed': seed}
     try:
         items = check.plan(ctx)
